@@ -1,4 +1,4 @@
-\* as-is: context ended before the request was written, handler stays -> InvSlotFreed
+\* demo (repaired in 49b62b1): context ended before the request was written, handler stays -> InvSlotFreed
 CONSTANTS
   Callers = {1}
   MaxCalls = 1
@@ -12,6 +12,7 @@ CONSTANTS
   T = 2
   MaxTime = 0
   EarlyCancel = TRUE
+  NoTimeouts = FALSE
   Mode = "mc"
   SymBreak = FALSE
   Dev_OpnTimeoutWedge = FALSE
